@@ -19,7 +19,7 @@ pub fn meta() -> Meta {
     Meta {
         id: "C09",
         level: "exploration",
-        rule: "for all 30 valid k x both strand modes x input families {generic pool; all split k-mers fit in 64 bits (k>=33: records of length k starting with k-33 A's, verified by the model to be < 2^64); mixed fitting + non-fitting samples; a 3 kb genome (thousands of k-mers)}: `ska build` then every subcommand on the saved file through the CLI — nk --full-info (incl. k_bits), align (plain and with every flag), map aln+vcf, distance (plain and with its flags), weed (sequence file, --reverse, and the filter flags), delete, merge with a second file in both orders (fitting/non-fitting in both orders; a second file reduced by a filter; a second file emptied of all k-mers) and the empty-after-filter file — each compared with what the model derives from the source sequences; every stored field is read back with the independent mirror decoder. Non-trivial = a CLI command on a non-empty file; distinct outcomes = distinct expected outputs.".into(),
+        rule: "for all 30 valid k x both strand modes x input families {generic pool; all split k-mers fit in 64 bits (k>=33: records of length k starting with k-33 A's, verified by the model to be < 2^64); mixed fitting + non-fitting samples; a 3 kb genome (thousands of k-mers)}: `ska build` then every subcommand on the saved file through the CLI — nk --full-info (incl. k_bits), align (plain and with every flag), map aln+vcf, distance (plain and with its flags), weed (sequence file, --reverse, and the filter flags), delete, merge with a second file in both orders (fitting/non-fitting in both orders; a second file reduced by a filter; a second file emptied of all k-mers) and the empty-after-filter file — each compared with what the model derives from the source sequences; every stored field is read back with the independent mirror decoder. Non-trivial = a CLI command on a non-empty file; distinct outcomes = distinct expected outputs. At k in {5,7,17,31,33,35,63} (thorough: every k) the whole family is run a second time through the dev-profile build of the CLI (debug assertions and arithmetic overflow checks on): same verdict required.".into(),
         assumptions: vec!["the model stands in for 'the in-memory data it was saved from' (their agreement is C01/C06/C07/C08/C13/C14's subject)".into()],
         exhaustive_when_uncapped: true,
     }
@@ -520,6 +520,20 @@ pub fn run(ctx: &Ctx, rep: &mut Report) {
                     );
                 }
                 rep.corner(fam.name);
+                // the same family through the dev-profile build of the CLI (arithmetic overflow checks on) at the
+                // extreme k, the default k and around the 64/128-bit boundary (thorough: every k)
+                if (thorough || [5usize, 7, 17, 31, 33, 35, 63].contains(&k)) && cli::set_debug_profile(true) {
+                    let bad = check_family(rep, k, rc, &fam, &scratch::path("c09"));
+                    for (step, msg) in bad {
+                        rep.violate(
+                            format!("k={k} rc={rc} family={} step={step}", fam.name),
+                            format!("k={k} rc={rc} {}: {step}: {msg}", fam.name),
+                            json!({"k": k, "rc": rc, "family": fam.name, "step": step, "seed": ctx.seed, "thorough": thorough}),
+                        );
+                    }
+                    cli::set_debug_profile(false);
+                    rep.corner("family_repeated_with_overflow_checked_build");
+                }
             }
         }
         rep.completed.push(format!("k={k}"));
